@@ -95,75 +95,84 @@ def check_valid_topology_tree(ctx, tree, n, what):
 
 
 # ------------------------------------------------------------------ (a) exhaustive small n
+NPARTS = {1: 1, 2: 1, 3: 1, 4: 1, 5: 1, 6: 3, 7: 16}
+
+
 def enum_small(tier, seed):
+    """One 'global' case per n (part 0) plus NPARTS[n] cases that each take the shapes with
+    shape rank = part-1 (mod NPARTS[n]); a case stays well below the hang watchdog."""
     for n in range(1, (6 if tier == "quick" else 7) + 1):
-        yield dict(n=n)
+        for part in range(NPARTS[n] + 1):
+            yield dict(n=n, part=part)
 
 
 def run_small(case, ctx):
     import tskit
     from tskit import combinatorics as cb
 
-    n = case["n"]
+    n, part = case["n"], case["part"]
     ctx.nt(n >= 4)
     ctx.label(f"n={n}")
-    trees = list(tskit.all_trees(n))
-    ctx.check(len(trees) == A000311[n], "all_trees_count", f"n={n}: {len(trees)} trees, A000311 = {A000311[n]}")
-    canons = []
-    ranks = []
-    for t in trees:
-        c = check_valid_topology_tree(ctx, t, n, "all_trees_valid")
-        canons.append(c)
-        r = t.rank()
-        ranks.append((int(r[0]), int(r[1])))
-        ctx.check(r.shape == r[0] and r.label == r[1], "rank_tuple", "Rank fields")
-    ctx.check(len(set(canons)) == len(canons), "all_trees_distinct",
-              f"n={n}: {len(canons) - len(set(canons))} repeated topologies")
-    # strictly increasing and dense
-    for a, b in zip(ranks, ranks[1:]):
-        ctx.check(a < b, "rank_order", f"n={n}: rank {a} listed before {b}")
-    by_shape = {}
-    for (s, l), c in zip(ranks, canons):
-        by_shape.setdefault(s, []).append((l, c))
-    S = len(by_shape)
-    ctx.check(sorted(by_shape) == list(range(S)), "rank_dense", f"n={n}: shape ranks {sorted(by_shape)}")
+    shape_trees = list(tskit.all_tree_shapes(n))
+    S = len(shape_trees)
     ctx.check(S == A000669[n], "shape_count", f"n={n}: {S} shapes, A000669 = {A000669[n]}")
     ctx.check(cb.num_shapes(n) == S, "num_shapes", f"num_shapes({n}) = {cb.num_shapes(n)}")
-    shapes_seen = set()
-    for s in range(S):
-        labs = [l for l, _ in by_shape[s]]
-        ctx.check(labs == list(range(len(labs))), "rank_dense", f"n={n} shape {s}: label ranks {labs[:8]}...")
+    shape_canons = [check_valid_topology_tree(ctx, t, n, "all_tree_shapes_valid") for t in shape_trees]
+    shapes = [shape_of(c) for c in shape_canons]
+    ctx.check(len(set(shapes)) == S, "all_tree_shapes_distinct", f"n={n}: a shape is listed twice")
+    if part == 0:
+        ctx.label("global")
+        # all_trees lists every topology exactly once: valid, pairwise distinct, A000311(n) of them
+        trees = list(tskit.all_trees(n))
+        ctx.check(len(trees) == A000311[n], "all_trees_count",
+                  f"n={n}: {len(trees)} trees, A000311 = {A000311[n]}")
+        canons = [check_valid_topology_tree(ctx, t, n, "all_trees_valid") for t in trees]
+        ctx.check(len(set(canons)) == len(canons), "all_trees_distinct",
+                  f"n={n}: {len(canons) - len(set(canons))} repeated topologies")
+        # ... in rank order: shape by shape, the labellings in the order of all_tree_labellings (whose
+        # ranks the other parts check to be (s, 0), (s, 1), ...)
+        concat = []
+        for t in shape_trees:
+            concat += [canon_tree(x) for x in tskit.all_tree_labellings(t)]
+        ctx.check(concat == canons, "all_trees_order",
+                  f"n={n}: all_trees is not the concatenation of all_tree_labellings over all_tree_shapes")
+        total = sum(cb.num_labellings(n, s) for s in range(S))
+        ctx.check(total == A000311[n], "num_labellings_sum", f"n={n}: sum of num_labellings = {total}")
+        t = next(iter(tskit.all_trees(n, span=2.5)))
+        ctx.check(tuple(t.interval) == (0, 2.5) and t.tree_sequence.sequence_length == 2.5, "span", "all_trees")
+        t = tskit.Tree.unrank(n, (S - 1, 0), span=3.0, branch_length=0.5)
+        ctx.check(tuple(t.interval) == (0, 3.0), "span", "unrank span")
+        check_unrank_times(ctx, t, 0.5)
+        return
+    P = NPARTS[n]
+    for s in range(part - 1, S, P):
+        st_ = shape_trees[s]
+        r = st_.rank()
+        ctx.check(r.shape == r[0] and r.label == r[1], "rank_tuple", "Rank fields")
+        ctx.check(tuple(r) == (s, 0), "all_tree_shapes_order", f"n={n}: shape #{s} has rank {tuple(r)}")
+        labs = list(tskit.all_tree_labellings(st_))
+        canons = [check_valid_topology_tree(ctx, x, n, "all_tree_labellings_valid") for x in labs]
+        ctx.check(len(set(canons)) == len(canons), "all_tree_labellings_distinct",
+                  f"n={n} shape {s}: {len(canons) - len(set(canons))} repeated labellings")
+        ctx.check(all(shape_of(c) == shapes[s] for c in canons), "all_tree_labellings_shape",
+                  f"n={n} shape {s}: a labelling has another shape")
         ctx.check(cb.num_labellings(n, s) == len(labs), "num_labellings",
                   f"num_labellings({n},{s}) = {cb.num_labellings(n, s)} but {len(labs)} labellings listed")
-        sh = {shape_of(c) for _, c in by_shape[s]}
-        ctx.check(len(sh) == 1, "shape_rank", f"n={n}: shape rank {s} covers {len(sh)} different shapes")
-        sh = next(iter(sh))
-        ctx.check(sh not in shapes_seen, "shape_rank", f"n={n}: one shape under two shape ranks")
-        shapes_seen.add(sh)
-    # round trips
-    for r, c in zip(ranks, canons):
-        u = tskit.Tree.unrank(n, r)
-        cu = check_valid_topology_tree(ctx, u, n, "unrank_valid")
-        ctx.check(cu == c, "unrank_rank_roundtrip", f"n={n}: unrank({r}) is not the tree all_trees listed at {r}")
-        ru = u.rank()
-        ctx.check((ru[0], ru[1]) == r, "rank_unrank_roundtrip", f"n={n}: unrank({r}).rank() = {tuple(ru)}")
-    # shapes and labellings generators
-    shape_trees = list(tskit.all_tree_shapes(n))
-    ctx.check(len(shape_trees) == S, "all_tree_shapes_count", f"n={n}: {len(shape_trees)} shapes")
-    for s, t in enumerate(shape_trees):
-        c = check_valid_topology_tree(ctx, t, n, "all_tree_shapes_valid")
-        ctx.check(shape_of(c) == shape_of(by_shape[s][0][1]), "all_tree_shapes_order",
-                  f"n={n}: shape #{s} of all_tree_shapes is not the shape of rank {s}")
-        labellings = [check_valid_topology_tree(ctx, x, n, "all_tree_labellings_valid")
-                      for x in tskit.all_tree_labellings(t)]
-        ctx.check(labellings == [c for _, c in by_shape[s]], "all_tree_labellings",
-                  f"n={n} shape {s}: labellings differ from all_trees ({len(labellings)} vs {len(by_shape[s])})")
-    # span argument
-    t = next(iter(tskit.all_trees(n, span=2.5)))
-    ctx.check(tuple(t.interval) == (0, 2.5) and t.tree_sequence.sequence_length == 2.5, "span", "all_trees span")
-    t = tskit.Tree.unrank(n, ranks[-1], span=3.0, branch_length=0.5)
-    ctx.check(tuple(t.interval) == (0, 3.0), "span", "unrank span")
-    check_unrank_times(ctx, t, 0.5)
+        for l, (x, c) in enumerate(zip(labs, canons)):
+            rx = x.rank()
+            ctx.check(tuple(rx) == (s, l), "rank_order_dense",
+                      f"n={n}: labelling #{l} of shape {s} has rank {tuple(rx)}")
+            u = tskit.Tree.unrank(n, (s, l))
+            cu = check_valid_topology_tree(ctx, u, n, "unrank_valid")
+            ctx.check(cu == c, "unrank_rank_roundtrip", f"n={n}: unrank({(s, l)}) is not the tree listed at that rank")
+            ru = u.rank()
+            ctx.check(tuple(ru) == (s, l), "rank_unrank_roundtrip", f"n={n}: unrank({(s, l)}).rank() = {tuple(ru)}")
+        for bad in ((s, len(labs)), (s, -1)):
+            try:
+                tskit.Tree.unrank(n, bad)
+                ctx.fail("bad_rank_accepted", f"Tree.unrank({n}, {bad}) did not raise")
+            except ValueError:
+                pass
 
 
 def check_unrank_times(ctx, t, bl):
@@ -306,7 +315,7 @@ def run_big(case, ctx):
             sj = got[0][0][0]
         nlj = cb.num_labellings(n, sj)
         lj = b % nlj
-        ctx.label("label_rank>2^32", lj >= 2**32)
+        ctx.label("label_rank>=10^6", lj >= 10**6)
         t = tskit.Tree.unrank(n, (sj, lj))
         cj = check_valid_topology_tree(ctx, t, n, "unrank_valid")
         rj = t.rank()
@@ -409,7 +418,7 @@ def run_inv(case, ctx):
 # ------------------------------------------------------------------ out-of-range ranks
 @st.composite
 def bad_case(draw):
-    return dict(n=draw(st.integers(1, 12)), a=draw(BIG), b=draw(BIG),
+    return dict(n=draw(st.sampled_from([1, 2, 3, 4, 5, 6, 7, 8, 9, 10, 11, 12])), a=draw(BIG), b=draw(BIG),
                 kind=draw(st.sampled_from(["shape_eq", "shape_big", "label_eq", "label_big", "neg_shape",
                                            "neg_label", "neg_both", "zero_leaves"])))
 
@@ -669,14 +678,14 @@ def run_count(case, ctx):
 SUBCHECKS = [
     SubCheck("C15.exhaustive_small", run_small, enumerate=enum_small, quick=1, thorough=1,
              rule="every n from 1 to 6 (quick) / 7 (thorough), all trees; non-trivial = n >= 4"),
-    SubCheck("C15.roundtrip_big", run_big, strategy=big_case, quick=600, thorough=18000,
+    SubCheck("C15.roundtrip_big", run_big, strategy=big_case, quick=2000, thorough=60000,
              rule="n in [8,14] (all cases)", floors={"polytomy": 0.3}),
-    SubCheck("C15.rank_invariance", run_inv, strategy=inv_case, quick=1500, thorough=45000,
+    SubCheck("C15.rank_invariance", run_inv, strategy=inv_case, quick=5000, thorough=150000,
              rule="n >= 4", floors={"polytomy": 0.2, "leaves_renumbered": 0.3, "multiroot": 0.1, "unary": 0.2}),
-    SubCheck("C15.bad_ranks", run_bad, strategy=bad_case, quick=600, thorough=18000,
+    SubCheck("C15.bad_ranks", run_bad, strategy=bad_case, quick=1500, thorough=45000,
              rule="every case (one out-of-range rank next to an accepted in-range rank)",
              floors={"n=1": 0.03, "shape_eq": 0.05, "label_eq": 0.05}),
-    SubCheck("C15.count_topologies", run_count, strategy=count_case, quick=3000, thorough=90000,
+    SubCheck("C15.count_topologies", run_count, strategy=count_case, quick=10000, thorough=300000,
              rule="a tree with a polytomy or >= 2 roots, >= 3 sample sets, no internal sample",
              floors={"sets>=3": 0.2, "polytomy": 0.2, "multi_root": 0.15, "multi_tree": 0.15, "unary": 0.2,
                      "internal_sample_raises": 0.03, "k=2_nonempty": 0.15, "k=3_nonempty": 0.05,
